@@ -182,7 +182,8 @@ theorem alphabeta_succ_spec {g : Game P} (hev : EvalOk g) (ex : Explore) (le : L
       PathOK g ex le rootPly (d + 1) p r.1 r.2.1 ∧
       (rank a < rank b → ∀ m rest, r.2.1 = m :: rest →
         ∃ c, g.push p m = some c ∧ rank r.1 ≤ rank (lift (V g ex le rootPly d c)) ∧
-          rank (lift (V g ex le rootPly d c)) ≤ rank (V g ex le rootPly (d + 1) p)) := by
+          rank (lift (V g ex le rootPly d c)) ≤ rank (V g ex le rootPly (d + 1) p)) ∧
+      ((!(g.ply p == rootPly) && g.isDraw p) = false → legalAny g p (g.moves p) = true → r.2.1 = [] → r.1 = a) := by
   intro r hr
   have hst1 : Quiet { st with polls := st.polls + 1 } := hst
   simp only [alphabeta, abEnter_quiet hst] at hr
@@ -191,7 +192,8 @@ theorem alphabeta_succ_spec {g : Game P} (hev : EvalOk g) (ex : Explore) (le : L
     subst hr
     have hV : V g ex le rootPly (d + 1) p = zeroScore := by rw [V]; simp only [hdraw, if_true]
     rw [hV]
-    refine ⟨hst1, okN_mono okN_zero (by omega), Or.inl rfl, fun _ => clip_self _ _ _, pathOK_nil _ _ _ _ _ _ _, ?_⟩
+    refine ⟨hst1, okN_mono okN_zero (by omega), Or.inl rfl, fun _ => clip_self _ _ _, pathOK_nil _ _ _ _ _ _ _, ?_,
+      fun h => by rw [hdraw] at h; cases h⟩
     intro _ m rest h; simp at h
   · have hdraw' : (!(g.ply p == rootPly) && g.isDraw p) = false := by simpa using hdraw
     simp only [hdraw', Bool.false_eq_true, if_false] at hr
@@ -214,7 +216,7 @@ theorem alphabeta_succ_spec {g : Game P} (hev : EvalOk g) (ex : Explore) (le : L
           Max.max (rank a) (rank (V g ex le rootPly (d + 1) p)) := by
         rw [rV, ← maxR_max, hmax]
       rw [hM] at h5
-      refine ⟨?_, h2, Or.inr h3, ?_, ?_, ?_⟩
+      refine ⟨?_, h2, Or.inr h3, ?_, ?_, ?_, ?_⟩
       · dsimp only
         split
         · exact quiet_ttwrite (quiet_polls h1 _) _ _ _ _ _ _
@@ -247,6 +249,11 @@ theorem alphabeta_succ_spec {g : Game P} (hev : EvalOk g) (ex : Explore) (le : L
           refine ⟨c, e3, e8, ?_⟩
           rw [rV]
           exact maxR_mem _ (mem_kidsR (hperm.mem_iff.1 e2) e3 e4)
+      · intro _ _ hnil
+        dsimp only at hnil ⊢
+        rcases h7 with ⟨_, e⟩ | ⟨m', c, s, rem, e1, _⟩
+        · exact e
+        · rw [e1] at hnil; cases hnil
     · have hl' : legalAny g p (g.moves p) = false := by simpa using hl
       rw [hl'] at h4
       simp only [h4, Bool.not_false, if_true] at hr
@@ -255,7 +262,7 @@ theorem alphabeta_succ_spec {g : Game P} (hev : EvalOk g) (ex : Explore) (le : L
         rw [V]; simp only [hdraw', hl', Bool.false_eq_true, if_false, Bool.not_false, if_true]
       rw [hV]
       refine ⟨quiet_polls h1 _, okN_mono (okN_terminal g p) (by omega), Or.inl rfl, fun _ => clip_self _ _ _,
-        pathOK_nil _ _ _ _ _ _ _, ?_⟩
+        pathOK_nil _ _ _ _ _ _ _, ?_, fun _ h => by rw [hl'] at h; cases h⟩
       intro _ m rest h; simp at h
 
 /-- Node contract of `alphabeta` (no table, no cancellation) by induction on the depth. -/
